@@ -8,7 +8,7 @@ PROP = {
              "same URL give system start/end flows; the transaction's request and response headers steer every Filter. The executed processors are read from the H2 events. "
              "Non-trivial: the executed request path contains a taken and a not-taken branch, or reaches an answering processor. distinct = canonical JSON of the case. "
              "Unit TestCrossFlowWalk: a host flow that incorporates a guard flow (1-3 request Filters with conditional exits and an optional answering processor, 1-2 response Filters) in front of its own 1-2 request Filters "
-             "(optional answering processor) and behind its own 1-2 response Filters; non-trivial: the request path crosses from the guard into the host, or is answered"),
+             "(optional answering processor) and behind its own 1-2 response Filters; in one case of three (hosts without an answering processor) 1-2 further connections leave 'flow Guard at end' for processors of their own - a fan-out directly behind the reference, whose branches run in the order written; non-trivial: the request path crosses from the guard into the host, or is answered"),
     "assumptions": [
         "every case is built and run at a generated log level (off, error, debug, trace; output discarded): at an enabled level the log statements of the loader and the engine format their arguments, which is code that runs on the flow graph",
         "MockProcessor is unusable (its loader conditions never match its runtime output); Limiter/Queue are covered by C01/C06",
